@@ -307,13 +307,25 @@ def run(ctx):  # noqa: C901, PLR0912, PLR0915
                     and isinstance(w.test.target, ast.Name):
                 inline.append((ast.If(test=ast.Compare(left=w.test.value, ops=[ast.NotEq()], comparators=[]), body=[],
                                       orelse=[], lineno=w.lineno), True))
+            # any other read in the loop (e.g. `buf += stream.read(1)`): its result is never looked at, an empty read at
+            # the end of the stream goes unnoticed
+            known = {id(st_.value) for _v, st_ in reads_in} | {id(n_.test.left) for n_, _ok in inline}
+            if isinstance(w.test, ast.NamedExpr):
+                known.add(id(w.test.value))
+            for n in ast.walk(w):
+                if isinstance(n, ast.Call) and call_name(n) == 'read' and id(n) not in known:
+                    inline.append((ast.If(test=ast.Compare(left=n, ops=[ast.NotEq()], comparators=[]), body=[], orelse=[],
+                                          lineno=getattr(n, 'lineno', w.lineno)), False))
             if not reads_in and not inline:
                 continue
             n_loops += 1
             for n, ok in inline:
                 ctx.ob('C13.R4', f'{fi.name}: {unparse(n.test.left)} compared in place', ok,
                        f'{fi.name}: the loop is left when {unparse(n.test.left)} returns b"" (it differs from the expected '
-                       f'constant)', fi=fi, node=n)
+                       f'constant)' if ok else
+                       f'{fi.name}: the result of {unparse(n.test.left)} is used without a test for the empty read at the end '
+                       f'of the stream: on a truncated body the loop never makes progress and the request thread spins', fi=fi,
+                       node=n)
             for var, st in reads_in:
                 ok = _loop_exits_on_empty(w, var, st)
                 ctx.ob('C13.R4', f'{fi.name}: {var} = {unparse(st.value)}', ok,
